@@ -80,7 +80,10 @@ def handler : Handler := fun op inp out =>
       match run (do let a ← P.intss; let b ← P.intss; pure (a, b)) out with
       | none =>
         (m, verdict (pre g "input" t ++
-          [((if isPanic out then "stabilizer-panicked-on-a-valid-table" else "no-presentation-returned"),
+          [((if isPanic out then
+               (if g.rels.any (fun r => (FW.new r).isEmpty) then "stabilizer-panicked-on-a-presentation-with-an-empty-relator"
+                else "stabilizer-panicked-on-a-valid-table")
+             else "no-presentation-returned"),
             fun (_ : Unit) => false)]))
       | some (gens, srels) =>
         (m, verdict (pre g "input" t ++ [("base-is-a-row", fun (_ : Unit) => decide (base < t.size))] ++ corpus g ++
